@@ -782,6 +782,10 @@ func (e *Engine) simpleInstr(fr *Frame, st *State, instr ssa.Instruction) (*Val,
 		if ts == sErr {
 			r.T = st.fresh("mkerr", sErr)
 			st.assume(not(eq(r.T, "nil_err")))
+			if _, ok := e.specs.Funcs["isSentinel"]; ok {
+				// a value boxed here is a new error value, never one of the package-level sentinel variables
+				st.assume(not("(isSentinel " + r.T + ")"))
+			}
 			return r, nil
 		}
 		tid := e.reg.typeID(in.X.Type())
